@@ -248,6 +248,42 @@ theorem clip0_sub (x : Rat) : clip0 x - clip0 (-x) = x := by
 theorem clip0_add_le (a b : Rat) (ha : 0 ≤ a) (hb : 0 ≤ b) : clip0 (a - b) + clip0 (-(a - b)) ≤ a + b := by
   unfold clip0; split <;> split <;> linarith
 
+/-! the LIFTED text of `UtilityParity.project_lambda` (`Generated/ProjectLambdaSrc.lean`) against the closed forms the
+    proofs use: a change of a sign, of the clip threshold / replacement value, of the order "negate, then clip" or of the
+    `ratio == 1.0` guard in the source breaks exactly these lemmas (and with them C07 `project_lambda_*`) -/
+
+theorem src_posOf_clip0 (a b : Rat) : ProjectLambdaSrc.posOf a b = clip0 (a - b) := by
+  unfold ProjectLambdaSrc.posOf clip0
+  split_ifs <;> linarith
+
+theorem src_negOf_clip0 (a b : Rat) : ProjectLambdaSrc.negOf a b = clip0 (-(a - b)) := by
+  unfold ProjectLambdaSrc.negOf clip0
+  split_ifs <;> linarith
+
+theorem src_projects_iff (ratio : Rat) : ProjectLambdaSrc.projects ratio = true ↔ ratio = 1 := by
+  simp [ProjectLambdaSrc.projects]
+
+theorem zipWith_posOf (lp lm : List Rat) :
+    List.zipWith ProjectLambdaSrc.posOf lp lm = (List.zipWith (· - ·) lp lm).map clip0 := by
+  rw [List.map_zipWith]
+  exact congrArg (fun f => List.zipWith f lp lm) (funext fun a => funext fun b => src_posOf_clip0 a b)
+
+theorem zipWith_negOf (lp lm : List Rat) :
+    List.zipWith ProjectLambdaSrc.negOf lp lm = (List.zipWith (· - ·) lp lm).map (fun x => clip0 (-x)) := by
+  rw [List.map_zipWith]
+  exact congrArg (fun f => List.zipWith f lp lm) (funext fun a => funext fun b => src_negOf_clip0 a b)
+
+/-- the model's `projectLambda` (defined over the lifted text) in closed form -/
+theorem projectLambda_closed (ratio : Rat) (lp lm : List Rat) :
+    projectLambda ratio lp lm =
+      if ratio = 1 then ((List.zipWith (· - ·) lp lm).map clip0, (List.zipWith (· - ·) lp lm).map (fun x => clip0 (-x)))
+      else (lp, lm) := by
+  unfold projectLambda
+  by_cases h : ratio = 1
+  · rw [if_pos ((src_projects_iff ratio).mpr h), if_pos h, zipWith_posOf, zipWith_negOf]
+  · have : ¬ ProjectLambdaSrc.projects ratio = true := fun hh => h ((src_projects_iff ratio).mp hh)
+    rw [if_neg this, if_neg h]
+
 /-- pairwise form of the projection inequality for ratio 1 (`gm = -gp`) -/
 theorem project_pairs_le (eps : Rat) (heps : 0 ≤ eps) (lp lm gp : List Rat)
     (hp : ∀ x ∈ lp, 0 ≤ x) (hm : ∀ x ∈ lm, 0 ≤ x)
